@@ -459,7 +459,7 @@ func (s *Session) onPlay(resp *Response, req *Request) (err error) {
 		err = s.asMulticastConsumer(stream, resp)
 	}
 
-	if err == nil {
+	if err == nil && resp.StatusCode == StatusOK {
 		s.status = statusPlaying
 	}
 	return
